@@ -1,4 +1,5 @@
 import ScrapliModel.Lemmas.Decode
+import ScrapliModel.Lemmas.Framed
 /-!
 # C02 — NETCONF replies decode to exactly the payload, or are explicitly failed
 
@@ -146,6 +147,65 @@ theorem decodeLoop_unterminated (k f : Nat) (cs : List Bytes) (acc : Bytes) (hk 
       simp only [List.map_cons, List.flatten_cons]
       rw [decodeLoop_chunk k f c _ acc (hcs c (by simp)).1 (hcs c (by simp)).2 hk]
       exact ih f (acc ++ c) (fun x hx => hcs x (by simp [hx]))
+
+/-- EXACT CHARACTERISATION of what the 1.1 decoder accepts: a raw reply decodes successfully iff its
+trimmed text starts with `#` and is a terminated chunk stream (`Framed`: chunk headers of at most
+`maxChunkSizeCharLen` characters whose size equals the length of the data that follows, ended by
+`##`); the result is then exactly the concatenated chunk data. Every other input — truncated
+before the end marker, a size larger than the data that remains, a negative / zero / non-numeric /
+over-long size, a missing `#` — is an error. -/
+theorem decode11Raw_ok_iff (raw r : Bytes) :
+    decode11Raw raw = .ok r ↔
+      (∃ t, trimSpace raw = HASH :: t) ∧
+      ∃ cs, Framed Gen.Response.maxChunkSizeCharLen (trimSpace raw) cs ∧ r = cs.flatten := by
+  unfold decode11Raw
+  simp only
+  constructor
+  · intro h
+    split at h
+    · simp at h
+    · rename_i b t heq
+      split at h
+      · simp at h
+      · rename_i hb
+        have hbh : b = HASH := by simpa using hb
+        subst hbh
+        obtain ⟨cs, hf, hr⟩ := decodeLoop_sound _ _ _ _ _ h
+        exact ⟨⟨t, heq⟩, cs, hf, by simpa using hr⟩
+  · rintro ⟨⟨t, ht⟩, cs, hf, rfl⟩
+    rw [ht] at hf ⊢
+    simp only [bne_self_eq_false, Bool.false_eq_true, if_false]
+    have := decodeLoop_complete _ _ _ hf ((HASH :: t).length + 1) [] (by omega)
+    simpa using this
+
+/-- the malformed-input clause: an input that is not a terminated chunk stream is marked failed
+with a parse error and yields no result bytes -/
+theorem malformed_is_failed (mk : List Bytes) (raw : Bytes)
+    (h : ¬ ∃ cs, Framed Gen.Response.maxChunkSizeCharLen (trimSpace raw) cs) :
+    (record mk .v11 raw).failed = true ∧ (record mk .v11 raw).parseErr = true ∧
+    (record mk .v11 raw).result = [] := by
+  have hne : ∀ r, decode11 raw ≠ .ok r := by
+    intro r hr
+    unfold decode11 at hr
+    cases hraw : decode11Raw raw with
+    | error e => rw [hraw] at hr; simp [Except.map] at hr
+    | ok j =>
+      obtain ⟨_, cs, hcs, _⟩ := (decode11Raw_ok_iff raw j).mp hraw
+      exact absurd ⟨cs, hcs⟩ h
+  unfold record
+  cases hd : decode11 raw with
+  | ok r => exact absurd hd (hne r)
+  | error e => simp
+
+/-- a terminated chunk stream contains the end-of-chunks marker: input cut before it never decodes -/
+theorem framed_has_terminator {k : Nat} {d : Bytes} {cs : List Bytes} (h : Framed k d cs) :
+    ∃ a b, d = a ++ [HASH, HASH] ++ b := by
+  induction h with
+  | lf _ ih => obtain ⟨a, b, e⟩ := ih; exact ⟨LF :: a, b, by simp [e]⟩
+  | @done rest => exact ⟨[], rest, rfl⟩
+  | @chunk hd data rest cs _ _ _ _ _ _ ih =>
+    obtain ⟨a, b, e⟩ := ih
+    exact ⟨HASH :: (hd ++ LF :: (data ++ a)), b, by simp [e]⟩
 
 /-- NETCONF 1.0 body step: payload, end-of-message delimiter, trailing whitespace → payload -/
 theorem decode10_body (p ws : Bytes) (h : AllSpace ws) :
